@@ -1,9 +1,10 @@
 """C01 — AOEF save/load round trip is lossless for every collection type."""
 import copy
 import random
+import time
 
 from ..core import Op
-from .. import aoef, aoefgen, aoef_impl
+from .. import aoef, aoefgen, aoef_impl, c01_cases, c01_impl
 
 PROPERTY = "C01"
 LEAN_MODULE = "Proofs.C01"
@@ -11,16 +12,20 @@ _T = "SE.Proofs.C01."
 _THEOREM_NAMES = ["C01_roundtrip_general", "C01_save_total", "C01_roundtrip", "C01_roundtrip_dir", "C01_relocate",
                   "C01_fixpoint", "C01_fixpoint_dir", "C01_same_type_save", "C01_same_type_load", "C01_same_type",
                   "C01_type_dispatch", "C01_wf_of_wfB", "C01_wfB_iff", "C01_load_gate_iff", "C01_load_gate_not_found",
-                  "C01_load_file_type"]
+                  "C01_load_file_type", "C01_roundtrip_dir_relative", "C01_fixpoint_dir_dot", "C01_cycles_dir_outside",
+                  "C01_fixpoint_dir_iff", "C01_save_gate_iff", "C01_save_load_gate"]
 THEOREMS = [_T + n for n in _THEOREM_NAMES]
 LEVEL_TEXT = ("Lean theorems over an executable model of all 26 AOEF adapter modules (data classes, document classes, "
               "save = first-wins tables over the post-order traversal, single-pass loader with lenient / strict "
               "references): load (save c) = c for every collection constructor under the explicit coherence "
-              "hypothesis WF, with and without an audio directory, and n-cycle fixpoint. The model is tied to the "
-              "code on every run by regenerated FieldsAgree obligations (every data class and every AOEF object "
-              "class, decide +kernel on the model structures' own field lists), the adapter-table obligation, and "
-              "differential correspondence of documents, loads and n-cycle round trips on pool-generated object "
-              "graphs (in-process and through a fresh loader process).")
+              "hypothesis WF, with and without an audio directory (relative or absolute; with a directory the n-cycle "
+              "fixpoint holds exactly when every recording lies inside it), and n-cycle fixpoint; the file-level gates "
+              "of io.save / io.load. The model is tied to the code on every run by regenerated FieldsAgree obligations "
+              "(every data class and every AOEF object class, found by its position in the document; decide +kernel on "
+              "the model structures' own field lists), the adapter-table obligation, and differential correspondence "
+              "of documents, loads and n-cycle round trips on pool-generated object graphs (in-process and through a "
+              "fresh loader process), each round trip also judged after every cycle by a walk over the declared "
+              "fields (model_fields) of the real classes.")
 LEVEL_NOTE = ("Trusted: Lean kernel; the harness' conversion between pydantic objects / JSON documents and the model's "
               "JSON layout; pydantic's parsing of atoms (floats, datetimes, e-mail, uuid) and JSON text encoding, which "
               "the model treats as opaque atoms. Unmodelled: Recording's extra='allow' undeclared fields, non-simple "
@@ -30,18 +35,23 @@ TECHNIQUE = ("Lean 4 proof (round trip and fixpoint theorems over a hand-written
              "regenerated FieldsAgree / adapter-table obligations (decide +kernel); differential correspondence of "
              "documents, loads and n-cycle round trips")
 RULE = ("distinct (operation, collection) inputs on which the real save/load ran without error; collections are "
-        "pool-generated object graphs of all eight types with shared sub-objects, optional fields present/absent and "
-        "falsy-but-meaningful values")
+        "pool-generated object graphs of all eight types with shared sub-objects and equal-content twins, optional "
+        "fields present/absent (randomly and one declared field at a time), falsy-but-meaningful and extreme atoms, "
+        "relative and absolute audio directories in several spellings")
 TRUSTED = ["pydantic-core parsing / dumping of atoms (float repr round trip, datetime, uuid, e-mail) and JSON text",
-           "harness/aoef.py: build (model JSON -> pydantic objects), dump (objects -> model JSON), doc_to_model"]
+           "harness/aoef.py: build (model JSON -> pydantic objects), dump (objects -> model JSON), doc_to_model "
+           "(dump's field lists are double-checked on every round trip by the declared-field walk of harness/c01_generic.py)"]
 ASSUMPTIONS = ["objects with one uuid are one object (sharing by reference) — the model's WF coherence hypothesis, "
                "evaluated by the Lean-side wfB on every generated input",
                "terms are simple-label terms; feature labels are distinct within each feature list; the collection's "
-               "own member list has distinct members"]
+               "own member list has distinct members (needed by the code only for Evaluation.clip_evaluations, which is "
+               "written from the de-duplicated adapter table; model and code agree on duplicated members: roundtrip_dup)"]
 NOT_COMPARED = ["order of the top-level definition lists of a document and the numbering of tag ids (the property does "
                 "not pin them; documents are compared after sorting by uuid and renumbering tags by (label, value))",
                 "absent vs empty optional lists in the document (representation, not content)",
-                "AOEFObject.created_on / version of the file wrapper", "error messages"]
+                "AOEFObject.created_on / version of the file wrapper", "error messages",
+                "the sign of a zero (-0.0 == 0.0; negative zeros are never generated)",
+                "a time-zone offset with a seconds part (pydantic drops the seconds; never generated)"]
 
 HAVE_DISPATCH_THEOREM = True     # set when Proofs/C01.lean provides C01_type_dispatch
 _DISPATCH_OBLIGATION = (
@@ -59,28 +69,35 @@ RENAME = {"Tag": {"term": "key"}, "Feature": {"term": "key"}}
 
 # ------------------------------------------------------------------ operations
 def _impl_roundtrip(inp):
-    return aoef_impl.roundtrip(inp["collection"], inp.get("save_dir"), inp.get("load_dir"), inp.get("n", 1),
-                               inp.get("dir_as", "str"), inp.get("fresh", False))
+    return c01_impl.roundtrip(inp)
+
+
+def _model_roundtrip(inp):
+    return {"collection": inp["collection"], "save_dir": inp.get("save_dir"), "load_dir": inp.get("load_dir"),
+            "n": inp.get("n", 1)}
 
 
 def _holds_roundtrip(ctx, inp, out):
-    """the property itself on the real I/O: same type, equal in every declared field, for n cycles"""
+    """the property itself on the real I/O: same type, equal in every declared field, after every one of n cycles
+    (judged inside `c01_impl.roundtrip` against the object that was built and saved)"""
     if "unbuildable" in out:
+        ctx.tally("generator:unbuildable")
         return None
-    if inp.get("save_dir") != inp.get("load_dir"):
+    if not c01_impl.same_dir(inp.get("save_dir"), inp.get("load_dir")):
         return None          # relocation is C18's statement
+    if "built_differs" in out:
+        ctx.tally("constructors normalised the input")
+    if "property" in out:
+        return out["property"]
     if "raise" in out:
         return f"save/load raised {out['raise']} on a collection inside the quantifier"
-    d = aoef.diff(out["val"], inp["collection"])
-    if d:
-        return f"after {inp.get('n', 1)} save/load cycle(s) the loaded object differs from the original at {d}"
     return None
 
 
 def _cmp_roundtrip(inp, io, mo):
-    if "unbuildable" in io:
-        return None
-    a = {k: v for k, v in io.items() if k != "trace"}
+    if "unbuildable" in io or "built_differs" in io:
+        return None          # the model was given something else than what was saved
+    a = {k: v for k, v in io.items() if k in ("val", "raise")}
     if a == mo:
         return None
     if "val" in a and "val" in mo:
@@ -106,7 +123,8 @@ def _cmp_save_doc(inp, io, mo):
         return None if {k: v for k, v in io.items() if k != "trace"} == mo else "implementation and model disagree (error)"
     if io.get("unknown_keys"):
         return f"the document has keys the model does not know: {io['unknown_keys']}"
-    d = aoef.diff(io["val"], aoef.canon_doc(mo["val"]))
+    want = aoef.canon_doc(mo["val"])
+    d = None if io["val"] == want else aoef.diff(io["val"], want)
     return None if d is None else "document written by the code differs from the model's at " + d
 
 
@@ -143,6 +161,33 @@ def _impl_load_gate(inp):
         aoef_impl.cleanup(path)
 
 
+def _impl_save_gate(inp):
+    """io.save with the given suffix and format argument: is the document written at all?"""
+    import os as _os
+    from soundevent import io
+    from .. import leanio as _leanio
+    cj = aoefgen.gen_collection(random.Random("gate:" + inp["doc_type"]), inp["doc_type"], size=0.5)
+    obj = aoef.build(cj)
+    path = _os.path.join(_leanio.run_dir(), "sgate" + (".json" if inp["suffix_json"] else inp.get("suffix", ".aoef")))
+    aoef_impl.cleanup(path)
+    try:
+        kw = {} if inp.get("format") == "<default>" else {"format": inp.get("format")}
+        io.save(obj, path, **kw)
+        return {"ok": True} if _os.path.exists(path) else {"ok": False}
+    finally:
+        aoef_impl.cleanup(path)
+
+
+def _model_save_gate(inp):
+    return dict(inp, format="aoef" if inp.get("format") == "<default>" else inp.get("format"))
+
+
+def _save_gate_cases():
+    return [{"suffix_json": sj, "format": fmt, "doc_type": ty}
+            for sj in (True, False) for fmt in (None, "aoef", "other", "<default>", "AOEF", "")
+            for ty in ("recording_set", "annotation_project", "evaluation")]
+
+
 def _gate_cases():
     out = []
     for ex in (True, False):
@@ -161,6 +206,10 @@ def _impl_history(inp):
     return [_impl_roundtrip(st) for st in inp["steps"]]
 
 
+def _model_history(inp):
+    return {"steps": [_model_roundtrip(st) for st in inp["steps"]]}
+
+
 def _holds_history(ctx, inp, out):
     for i, (st, o) in enumerate(zip(inp["steps"], out)):
         msg = _holds_roundtrip(ctx, st, o)
@@ -177,12 +226,21 @@ def _cmp_history(inp, io, mo):
     return None
 
 
+def _impl_roundtrip_dup(inp):
+    out = c01_impl.roundtrip(inp)
+    return {k: v for k, v in out.items() if k in ("val", "raise", "unbuildable")}
+
+
 OPS = {
-    "history": Op("history", _impl_history, holds=_holds_history, compare=_cmp_history,
+    # the same object listed twice in the collection's own member list (outside WF: only the correspondence is checked)
+    "roundtrip_dup": Op("roundtrip_dup", _impl_roundtrip_dup, compare=_cmp_roundtrip, determined=False,
+                        to_model=_model_roundtrip, model_op="roundtrip", nontrivial=lambda i, o: "val" in o),
+    "history": Op("history", _impl_history, holds=_holds_history, compare=_cmp_history, to_model=_model_history,
                   nontrivial=lambda i, o: all("val" in x for x in o)),
     "load_gate": Op("load_gate", _impl_load_gate, nontrivial=lambda i, o: True),
+    "save_gate": Op("save_gate", _impl_save_gate, to_model=_model_save_gate, nontrivial=lambda i, o: True),
     "roundtrip": Op("roundtrip", _impl_roundtrip, holds=_holds_roundtrip, compare=_cmp_roundtrip,
-                    nontrivial=lambda i, o: "val" in o),
+                    to_model=_model_roundtrip, nontrivial=lambda i, o: "val" in o),
     "save_doc": Op("save_doc", _impl_save_doc, compare=_cmp_save_doc, determined=False, model_op="save",
                    nontrivial=lambda i, o: "val" in o),
     "load_doc": Op("load_doc", _impl_load_doc, determined=False, model_op="load_checked",
@@ -193,6 +251,56 @@ OPS = {
 # ------------------------------------------------------------------ tie 1: tables
 def _lean_list(xs):
     return "[" + ", ".join('"%s"' % x for x in xs) + "]"
+
+
+# document key -> name of the model structure of the objects listed there
+POSITION = {"users": "UserObject", "tags": "TagObject", "recordings": "RecordingObject", "clips": "ClipObject",
+            "sound_events": "SoundEventObject", "sequences": "SequenceObject",
+            "sound_event_annotations": "SoundEventAnnotationObject", "sequence_annotations": "SequenceAnnotationObject",
+            "clip_annotations": "ClipAnnotationsObject", "sound_event_predictions": "SoundEventPredictionObject",
+            "sequence_predictions": "SequencePredictionObject", "clip_predictions": "ClipPredictionsObject",
+            "clip_evaluations": "ClipEvaluationObject", "matches": "MatchObject", "tasks": "AnnotationTaskObject",
+            "notes": "NoteObject", "status_badges": "StatusBadgeObject"}
+DOC_MODEL = {"recording_set": "RecordingSetObject", "dataset": "DatasetObject", "annotation_set": "AnnotationSetObject",
+             "annotation_project": "AnnotationProjectObject", "evaluation_set": "EvaluationSetObject",
+             "prediction_set": "PredictionSetObject", "model_run": "ModelRunObject", "evaluation": "EvaluationObject"}
+
+
+def _models_in(ann):
+    """pydantic classes mentioned in a type annotation"""
+    import typing
+    from pydantic import BaseModel
+    out = []
+    stack = [ann]
+    while stack:
+        a = stack.pop()
+        if isinstance(a, type) and issubclass(a, BaseModel):
+            out.append(a)
+        else:
+            stack.extend(typing.get_args(a))
+    return out
+
+
+def _classes_by_position(A):
+    """(model structure name, class) for the schema of every position of an AOEF document"""
+    wrapper = next(c for c in vars(A).values() if isinstance(c, type) and hasattr(c, "model_fields")
+                   and {"version", "data"} <= set(c.model_fields))
+    out, done = [], set()
+
+    def nested(cls):
+        for f, info in cls.model_fields.items():
+            for c in _models_in(info.annotation):
+                if f in POSITION and c.__module__.startswith("soundevent.io.aoef"):
+                    out.append((POSITION[f], c))
+                    if id(c) not in done:
+                        done.add(id(c))
+                        nested(c)
+    for c in _models_in(wrapper.model_fields["data"].annotation):
+        disc = c.model_fields.get("collection_type")
+        if disc is not None and disc.default in DOC_MODEL:
+            out.append((DOC_MODEL[disc.default], c))
+            nested(c)
+    return out
 
 
 def _tables(ctx):
@@ -211,17 +319,30 @@ def _tables(ctx):
         fs = sorted(RENAME.get(name, {}).get(f, f) for f in cls.model_fields)
         ctx.obligation(f"fields_{name}", f'example : SE.Aoef.fieldsOf "{name}" = {_lean_list(fs)} := by decide +kernel',
                        {"class": name, "fields": fs})
-    # AOEF object classes, found by introspection of every module of the package
+    # AOEF object classes.  (a) by *position in the document*: every pydantic class reachable through the field
+    # annotations of the members of the `AOEFObject.data` union is the schema of the objects written at that key
+    # (`recordings[]`, `recordings[].notes[]`, `tasks[].status_badges[]` …) whatever the class is called;
+    # (b) by name, walking every module of the package (catches a class that is defined but no longer referenced).
     seen = {}
+    try:
+        for model_name, c in _classes_by_position(A):
+            if seen.get(model_name, c) is not c:
+                model_name = f"{model_name}@{c.__module__}.{c.__name__}"     # two schemas for one position
+            seen[model_name] = c
+        ctx.tally("object classes found by document position", len(seen))
+    except Exception as e:  # noqa: BLE001
+        ctx.note("object classes could not be found by document position (%r); falling back to class names" % (e,))
+    by_position = set(map(id, seen.values()))
     for m in pkgutil.iter_modules(A.__path__):
         mod = importlib.import_module("soundevent.io.aoef." + m.name)
         for n, c in inspect.getmembers(mod, inspect.isclass):
-            if issubclass(c, BaseModel) and c.__module__ == mod.__name__ and n.endswith("Object"):
-                seen[n] = c
+            if issubclass(c, BaseModel) and c.__module__ == mod.__name__ and n.endswith("Object") and id(c) not in by_position:
+                if n != "AOEFObject":
+                    seen.setdefault(n, c)
     for n, c in sorted(seen.items()):
         fs = sorted(c.model_fields)
-        ctx.obligation(f"fields_{n}", f'example : SE.Aoef.fieldsOf "{n}" = {_lean_list(fs)} := by decide +kernel',
-                       {"class": n, "fields": fs})
+        ctx.obligation(f"fields_{n}", f'example : SE.Aoef.fieldsOf "{n.split("@")[0]}" = {_lean_list(fs)} := by decide +kernel',
+                       {"class": f"{c.__module__}.{c.__name__}", "fields": fs})
     ctx.tally("object_classes", len(seen))
     # the adapter table: type names, most specific first, discriminators
     adapters = getattr(A, "ADAPTERS", None)
@@ -273,6 +394,18 @@ def _wf_filter(ctx, cases):
     return out
 
 
+def _buildable(ctx, cases):
+    """drop inputs the data classes refuse to construct (a variant that violates a schema validator)"""
+    out = []
+    for c in cases:
+        try:
+            aoef.build(c["collection"])
+            out.append(c)
+        except Exception:  # noqa: BLE001
+            ctx.tally("generator:unbuildable variant")
+    return out
+
+
 def _gen_cases(ctx, rng, n_per_type, rich=False, size=1.0):
     cases = []
     for ty in aoefgen.TYPES:
@@ -294,12 +427,23 @@ def _doc_cases(cases):
 def _mutate_doc(rng, doc):
     """a document outside what `save` writes: dangling / duplicated / reordered entries (lenient vs strict loading)"""
     d = copy.deepcopy(doc)
+    if d.get("tasks") and d.get("clips") and rng.random() < 0.35:
+        # a clip that only a task refers to disappears: the annotations load, the task must not
+        used = {a["clip"] for a in d.get("clip_annotations") or []}
+        only = [t["clip"] for t in d["tasks"] if t["clip"] not in used]
+        if only:
+            k = rng.choice(only)
+            d["clips"] = [c for c in d["clips"] if c["uuid"] != k]
+            return d, "drop-task-clip:clips"
     lists = [k for k in aoef.DOC_LISTS if d.get(k)]
     if not lists:
         return d, "none"
     k = rng.choice(lists)
-    how = rng.choice(["drop", "dup", "reverse", "drop-first"])
-    if how == "drop":
+    how = rng.choice(["drop", "dup", "reverse", "drop-first", "drop-any"])
+    if how == "drop-any":
+        i = rng.randrange(len(d[k]))
+        d[k] = d[k][:i] + d[k][i + 1:]
+    elif how == "drop":
         d[k] = d[k][:-1]
     elif how == "drop-first":
         d[k] = d[k][1:]
@@ -324,40 +468,183 @@ def _load_cases(ctx, rng, cases, n_mut):
     return res
 
 
-def _correspondence(ctx):
-    ctx.run_corpus(OPS)
-    # deterministic all-fields corpus (every optional field present, every list non-empty), one per type, first
+def _tally_cases(ctx, cases, prefix):
+    for c in cases:
+        ctx.tally("type:" + c["collection"]["type"])
+        t = c.pop("_tally", None)
+        d = c.get("save_dir")
+        ctx.tally(prefix + ":" + (t or ("audio_dir given" if d is not None else "no audio_dir")))
+    return cases
+
+
+def _rich_cases(ctx):
+    """deterministic all-fields corpus: every optional field present, every list with at least two elements, one per
+    type; plus the same graphs with every list reversed (one of the two orders is unsorted under any key)"""
     crng = random.Random("C01-all-fields")
     rich = _gen_cases(ctx, crng, 1, rich=True)
+    for ty in aoefgen.TYPES:
+        for base, d in (("/data/audio", "/data/audio"), ("audio/site a", "./audio/"), (None, None)):
+            cj = c01_cases.RichGen(crng, base=base).collection(ty)
+            rich.append({"collection": cj, "save_dir": d, "load_dir": d, "n": 3, "dir_as": "str", "fresh": False})
+    rich += [dict(c, collection=c01_cases.reverse_lists(c["collection"])) for c in rich[len(aoefgen.TYPES):]]
     for c in rich:
         c["n"] = 3
+    return _wf_filter(ctx, rich)
+
+
+def _stage_rich(ctx, st):
+    rich = st["rich"] = _rich_cases(ctx)
+    ctx.tally("all-fields collections (incl. list-reversed)", len(rich))
     ctx.run_cases(OPS["roundtrip"], rich)
     ctx.run_cases(OPS["save_doc"], _doc_cases(rich))
-    n = ctx.budget(40, 1500)
-    cases = _gen_cases(ctx, ctx.rng, n)
+    # declared fields the harness does not know (none on the pinned tree) get a non-default value before saving
+    ctx.run_cases(OPS["roundtrip"], [dict(c, fill_unknown=True, n=1, fresh=bool(i % 2)) for i, c in enumerate(rich[8:16])])
+
+
+def _stage_slots(ctx, st):
+    """one optional field at a time absent / empty / falsy, for every (class, field) of the declared fields"""
+    rich_by_type = {}
+    for c in st.get("rich", [])[8:]:
+        rich_by_type.setdefault(c["collection"]["type"], c["collection"])
+    per = None if ctx.thorough() else 1
+    vs = c01_cases.slot_variants(rich_by_type, types_per_slot=per, rng=ctx.rng)
+    cases = []
+    for label, c in vs:
+        cases.append(dict(c, save_dir=None, load_dir=None, n=1, dir_as="str", fresh=False))
+    cases = _buildable(ctx, _wf_filter(ctx, cases))
+    ctx.tally("slot variants (class.field absent/empty/falsy)", len(cases))
+    ctx.exhaustive["optional_slots"] = ("every declared field of every data class that is Optional / a list / str / float / int / "
+                                        f"bool (from model_fields, {len(c01_cases.slot_table())} fields), one at a time absent / empty / "
+                                        "falsy in an all-fields collection" + ("" if per is None else " (one host type per slot)"))
+    ctx.run_cases(OPS["roundtrip"], cases)
+    ctx.run_cases(OPS["roundtrip"], [dict(c, fresh=True) for c in cases[::5]])
+    ctx.run_cases(OPS["save_doc"], _doc_cases(cases[::3]))
+
+
+def _stage_random(ctx, st):
+    n = ctx.budget(32, 1200)
+    cases = st["cases"] = _gen_cases(ctx, ctx.rng, n)
     ctx.run_cases(OPS["roundtrip"], cases)
     ctx.run_cases(OPS["save_doc"], _doc_cases(cases))
     # fresh loader process (nothing can be recovered from memory)
-    fresh = [dict(c, fresh=True, n=1) for c in cases[::3]] + [dict(c, fresh=True, n=2) for c in rich]
+    fresh = [dict(c, fresh=True, n=1) for c in cases[::3]] + [dict(c, fresh=True, n=2) for c in st.get("rich", [])]
     ctx.run_cases(OPS["roundtrip"], fresh)
     ctx.tally("fresh-process loads", len(fresh))
+
+
+def _stage_dirs(ctx, st):
+    """relative recording paths under relative audio directories (and absolute ones), the directory spelled as a
+    caller may write it, str and Path, n cycles, in-process and fresh"""
+    n = ctx.budget(6, 150)
+    cases = _wf_filter(ctx, c01_cases.dir_cases(ctx.rng, n))
+    cases += _wf_filter(ctx, c01_cases.recording_is_directory_cases())
+    st["dirs"] = _tally_cases(ctx, cases, "dir-spelling")
+    ctx.run_cases(OPS["roundtrip"], cases)
+    ctx.run_cases(OPS["roundtrip"], [dict(c, fresh=True) for c in cases[::2]])
+    ctx.run_cases(OPS["save_doc"], _doc_cases(cases[::2]))
+
+
+def _stage_wide(ctx, st):
+    """atoms at the edge of their types; distinct objects with equal content; ints where floats are declared"""
+    n = ctx.budget(5, 120)
+    wide, twin = [], []
+    for ty in aoefgen.TYPES:
+        for i in range(n):
+            base = ctx.rng.choice(["/data/audio", "audio", None])
+            d = base if (base is not None and ctx.rng.random() < 0.5) else None
+            mk = lambda cj: {"collection": cj, "save_dir": d, "load_dir": d, "n": ctx.rng.choice([1, 2, 3]),
+                             "dir_as": ctx.rng.choice(["str", "path"]), "fresh": False}
+            w = c01_cases.WideGen(ctx.rng, rich=i == 0, base=base, size=0.8).collection(ty)
+            wide.append(mk(c01_cases.widen_strings(w, ctx.rng) if i % 3 else w))
+            twin.append(mk(c01_cases.TwinGen(ctx.rng, rich=i == 0, base=base, size=0.8).collection(ty)))
+    wide = st["wide"] = _tally_cases(ctx, _wf_filter(ctx, wide), "wide-atoms")
+    twin = st["twin"] = _tally_cases(ctx, _wf_filter(ctx, twin), "twins")
+    for cases in (wide, twin):
+        ctx.run_cases(OPS["roundtrip"], cases)
+        ctx.run_cases(OPS["roundtrip"], [dict(c, fresh=True) for c in cases[::2]])
+        ctx.run_cases(OPS["save_doc"], _doc_cases(cases))
+    ints = [dict(c, ints=True, n=1) for c in (st.get("cases", [])[::8] + wide[::4] + st.get("rich", [])[::3])]
+    ctx.tally("integral numbers passed as int", len(ints))
+    ctx.run_cases(OPS["roundtrip"], ints)
+
+
+IO_VARIANTS = [{"save_format": None}, {"save_format": "aoef", "load_format": None}, {"load_format": "aoef", "load_type": True},
+               {"load_type": True}, {"subdir": True, "path_as": "path"}, {"subdir": True, "save_format": None, "load_format": None,
+                                                                          "load_type": True}, {"path_as": "path"}]
+
+
+def _stage_io(ctx, st):
+    """the other spellings of the call: format given / inferred, the type requested on load, a `Path` as file name,
+    a parent directory that does not exist yet; and the same member listed twice (model = code outside WF)"""
+    src = st.get("rich", [])[:16] + st.get("cases", [])[::10] + st.get("dirs", [])[::7]
+    cases = [dict(c, io=IO_VARIANTS[i % len(IO_VARIANTS)], n=1 + i % 2) for i, c in enumerate(src)]
+    ctx.tally("call variants (format / type / Path / new directory)", len(cases))
+    ctx.run_cases(OPS["roundtrip"], cases)
+    dups = []
+    for c in st.get("cases", [])[::3] + st.get("rich", [])[8:16]:
+        v = c["collection"]["value"]
+        for key in ("recordings", "clip_annotations", "clip_predictions", "clip_evaluations", "tasks"):
+            if v.get(key):
+                w = dict(v, **{key: v[key] + [copy.deepcopy(v[key][0])]})
+                dups.append(dict(c, collection={"type": c["collection"]["type"], "value": w}, n=1))
+    ctx.tally("duplicated-member inputs (outside WF, correspondence only)", len(dups))
+    ctx.run_cases(OPS["roundtrip_dup"], dups)
+
+
+def _stage_load(ctx, st):
     # the loader on documents, pristine and mutated
-    ctx.run_cases(OPS["load_doc"], _load_cases(ctx, ctx.rng, cases[::2], 2))
+    src = st.get("cases", [])[::2] + st.get("dirs", [])[::3] + st.get("wide", [])[::3] + st.get("twin", [])[::3]
+    ctx.run_cases(OPS["load_doc"], _load_cases(ctx, ctx.rng, src, 2))
+
+
+def _stage_history(ctx, st):
     # histories: the same objects (same uuids) with revised content, and other collection types over the same
     # objects, saved / loaded later in the same process - nothing may be remembered from earlier calls
     hist = []
-    for c in cases[::4] + rich:
+    for c in st.get("cases", [])[::4] + st.get("rich", [])[:8] + st.get("dirs", [])[::6]:
         rev = dict(c, collection=aoefgen.revise(c["collection"]), n=1)
         hist.append({"steps": [dict(c, n=1), rev, dict(rev, fresh=True), dict(c, n=1, fresh=True)]})
     ctx.run_cases(OPS["history"], hist)
     ctx.tally("history cases (4 steps each)", len(hist))
+    multi = []
+    for i in range(ctx.budget(10, 150)):
+        h = c01_cases.multi_history(ctx.rng, gen_cls=[aoefgen.Gen, c01_cases.TwinGen][i % 2],
+                                    base=ctx.rng.choice(["/data/audio", "audio", None]))
+        oks = ctx.model_many("wf", [{"collection": s["collection"]} for s in h["steps"]])
+        if all(oks):
+            multi.append(h)
+    ctx.run_cases(OPS["history"], multi)
+    ctx.tally("multi-collection histories (12 steps each)", len(multi))
+
+
+def _stage_gate(ctx, st):
     # the file-level gate of io.load: every combination of existence / suffix / format / version / type
     ctx.run_cases(OPS["load_gate"], _gate_cases())
     ctx.exhaustive["load_gate"] = "exists x suffix x format{None,aoef,other} x version{3} x doc type{3} x requested type{4}"
-    # larger graphs
+    ctx.run_cases(OPS["save_gate"], _save_gate_cases())
+    ctx.exhaustive["save_gate"] = "suffix{.json,other} x format{None,aoef,other,default,AOEF,''} x doc type{3}"
+
+
+def _stage_big(ctx, st):
     big = _gen_cases(ctx, ctx.rng, ctx.budget(1, 8), size=2.5)
     ctx.run_cases(OPS["roundtrip"], big)
     ctx.run_cases(OPS["save_doc"], _doc_cases(big))
+
+
+def _correspondence(ctx):
+    ctx.run_corpus(OPS)
+    st = {}
+    for name, fn in (("all-fields", _stage_rich), ("optional-slots", _stage_slots), ("random", _stage_random),
+                     ("directories", _stage_dirs), ("wide-atoms-twins", _stage_wide), ("call-variants", _stage_io), ("loader", _stage_load),
+                     ("histories", _stage_history), ("load-gate", _stage_gate), ("large", _stage_big)):
+        t0 = time.time()
+        ctx.stage("correspondence:" + name, fn, ctx, st)
+        ctx.tally("seconds in stage " + name, round(time.time() - t0, 1))
+
+
+def _close():
+    aoef_impl.FRESH.close()
+    c01_impl.FRESH.close()
 
 
 def run(ctx):
@@ -366,13 +653,17 @@ def run(ctx):
         ctx.stage("discharge", ctx.discharge, ["SoundeventModel.Aoef.Fields", "Proofs.C01"])
         ctx.stage("correspondence", _correspondence, ctx)
     finally:
-        aoef_impl.FRESH.close()
+        _close()
 
 
 def search(ctx, failures):
     """a table obligation or the document correspondence broke: look for a collection on which the round trip
-    itself fails (all-fields objects first: an omitted field or list shows there)"""
+    itself fails (all-fields objects first, with every declared field the harness does not know set to a
+    non-default value: an omitted field or list shows there)"""
     try:
+        rich = _rich_cases(ctx)
+        ctx.run_cases(OPS["roundtrip"], [dict(c, fill_unknown=True, n=1) for c in rich])
+        ctx.run_cases(OPS["roundtrip"], [dict(c, fill_unknown=True, n=1, fresh=True) for c in rich[::2]])
         crng = random.Random("C01-search")
         for rich in (True, False):
             cases = _gen_cases(ctx, crng, 6 if rich else 30, rich=rich)
@@ -381,4 +672,4 @@ def search(ctx, failures):
             ctx.run_cases(OPS["roundtrip"], cases)
             ctx.run_cases(OPS["roundtrip"], [dict(c, fresh=True) for c in cases[::2]])
     finally:
-        aoef_impl.FRESH.close()
+        _close()
